@@ -170,7 +170,8 @@ class Hist(Part):
                     ops.append(("trunc", o["size"]))
         else:
             m, n = case["m"], case["n"]
-            pools = [absx.monotone_map(rng, rng.randint(3, 6)) for _ in range(m)]
+            close = rng.random() < 0.2
+            pools = [absx.monotone_map(rng, rng.randint(3, 6), style="close" if close else None) for _ in range(m)]
             fpool = absx.monotone_map(rng, 5) + [math.inf]
             mstyle_r = rng.randrange(3)
             ops = []
